@@ -2,10 +2,7 @@
 import itertools
 import random
 
-from ..env import World
-from ..sched import Scheduler
-from ..adversary import ReorderDup, HoldPermute
-from ..mailbox_work import (TwoParty, make_plan, prefix_violation, trace_digest, events_view, b2s)
+from ..mailbox_work import (build_case, prefix_violation, trace_digest, events_view, b2s)
 from ..monitors import MON
 
 PID = "C03"
@@ -19,7 +16,6 @@ ASSUMPTIONS = ["SimNet mirrors twisted tcp transport semantics (vt selftest)",
                "payloads carry a unique id so a delivery identifies its send"]
 FLOORS = {"quick": {"delivered": 200, "adv_out_of_order": 50, "adv_dups": 20, "drops": 20},
           "thorough": {"delivered": 2000, "adv_out_of_order": 500, "adv_dups": 200, "drops": 200}}
-STRATS = ["random", "pct", "netfirst", "timersfirst", "appfirst"]
 
 
 def cases(tier, seed, prep=None):
@@ -44,52 +40,8 @@ def cases(tier, seed, prep=None):
     return out
 
 
-def build(spec):
-    seed = spec["seed"]
-    world = World(seed)
-    rng = world.work_rng
-    kind = spec["kind"]
-    cfg = {
-        "a_code": rng.choice(["alloc", "alloc", "set"]),
-        "b_code": rng.choice(["set", "set", "input"]),
-        "api_a": rng.choice(["deferred", "deferred", "delegate"]),
-        "api_b": rng.choice(["deferred", "deferred", "delegate"]),
-        "get_a": rng.choice(["eager", "eager", "lazy"]),
-        "get_b": rng.choice(["eager", "eager", "lazy"]),
-        "code": "%d-%s" % (rng.randint(1, 999), rng.choice(["alpha-beta", "purple-sausages", "x-y-z"])),
-    }
-    if kind == "perm":
-        n = len(spec["perm"]) - 1
-        cfg["plan_a"] = make_plan(rng, "A", n, gates=("any",))
-        cfg["plan_b"] = make_plan(rng, "B", 2)
-        cfg["api_b"] = "delegate"
-    else:
-        cfg["plan_a"] = make_plan(rng, "A", rng.randint(0, 12), max_size=2000)
-        cfg["plan_b"] = make_plan(rng, "B", rng.randint(0, 12), max_size=2000)
-    drv = TwoParty(world, cfg)
-    if kind == "perm":
-        world.adversary = HoldPermute(world, lambda: drv.b.w._boss._side, len(spec["perm"]), spec["perm"])
-        strat = "random"
-    else:
-        world.adversary = ReorderDup(world, p_dup=rng.choice([0.0, 0.15, 0.3]))
-        strat = rng.choice(STRATS)
-    sch = Scheduler(world, drv, strategy=strat, chunking=rng.choice(["whole", "mixed"]),
-                    p_advance=rng.choice([0.0, 0.0, 0.02]))
-    sch.advance_ok = drv.both_connected_once
-    if kind == "random":
-        nd = rng.choice([0, 1, 1, 2, 3, 4])
-        for _ in range(nd):
-            who = rng.choice("AB")
-            sch.faults.append((rng.randint(5, 220), (lambda who=who: drv.drop(who)), "drop " + who))
-        sch.faults.sort(key=lambda f: f[0])
-    elif kind == "sweep":
-        who = spec["who"]
-        sch.faults.append((spec["drop_at"], (lambda: drv.drop(who)), "drop " + who))
-    return world, drv, sch, cfg
-
-
 def run_case(spec):
-    world, drv, sch, cfg = build(spec)
+    world, drv, sch, cfg = build_case(spec)
     end = sch.run(1500, until=drv.all_delivered)
     sch.drain(120.0, 6000, until=drv.all_delivered)
     drv.a.close()
